@@ -28,7 +28,7 @@ class Unsupported(Exception):
 # kinds: 'int' 'bool' 'str' 'list' 'dict' 'mv' 'coef' 'fun' 'alg' 'tuple' 'opt:<kind>' 'signs' None(unknown)
 class T:
     """a translation target"""
-    def __init__(self, file, qual, lean, params, ret, locals=None, tparams='', uses_alg=False, coef=False, self_name=None, uses_ops=False, consts=None):
+    def __init__(self, file, qual, lean, params, ret, locals=None, tparams='', uses_alg=False, coef=False, self_name=None, uses_ops=False, consts=None, state=None, externals=None, drop_assign=(), env=None, state_type=None):
         self.file, self.qual, self.lean = file, qual, lean
         self.params = params          # list of (pyname, leantype, kind)
         self.ret = ret
@@ -39,12 +39,22 @@ class T:
         self.self_name = self_name    # python name that denotes the algebra object (`self`, `algebra`, `alg`)
         self.uses_ops = uses_ops      # gets an `(ops : Ops α)` parameter: the algebra's operators on multivectors
         self.consts = consts or {}    # python parameters fixed to a constant (partial evaluation): not parameters in Lean
+        self.state = state or {}      # method mode: python expression (text) -> (field of the state record, kind)
+        self.externals = externals or {}   # python expression (text) -> (lean code, kind): calls out of the modelled core
+        self.drop_assign = set(drop_assign)  # locals that only feed an external call: their assignments are dropped
+        self.env = env                # method mode: Lean type of the `env` parameter (what `self` refers to that is not state)
+        self.state_type = state_type  # method mode: Lean type of the state record (the function lives in StateT)
 
 
 MV = 'Py.Dict Int α'
 FILT = 'Int → Int → Int → Bool'
 COEF = '{α : Type} [Add α] [Sub α] [Mul α] [Neg α]'
 FL = {'filter_func': (FILT, 'fun')}
+ODT = '{κ ρ φ ν ω : Type} [BEq κ] [BEq ν]'
+ODENV = 'Py.ODEnv κ ρ φ ν ω'
+ODSTATE = 'Py.ODState κ ρ φ ν'
+OD_STATE = {'self.operator_dict': ('operator_dict', 'dict'), 'self.algebra.numspace': ('numspace', 'dict:funcobj')}
+OD_LOCALS = {'keys_out': ('ρ', 'keysout'), 'func': ('φ', 'funcobj')}
 
 TARGETS = [
     T('kingdon/algebra.py', '_swap_blades', 'swap_blades',
@@ -88,6 +98,22 @@ TARGETS = [
     T('kingdon/codegen.py', 'codegen_unpolarity', 'codegen_unpolarity', [('x', MV, 'mv')], MV, tparams=COEF, uses_alg=True, uses_ops=True),
     T('kingdon/codegen.py', 'codegen_hitzer_inv', 'codegen_hitzer_inv', [('x', MV, 'mv')], f'{MV} × α',
       locals={'num': (MV, 'mv')}, tparams=COEF, uses_alg=True, uses_ops=True, consts={'symbolic': True}, self_name='alg'),
+    # ---- method mode: the operator dictionaries (operator_dict.py) ----
+    T('kingdon/operator_dict.py', 'OperatorDict.__getitem__', 'operatordict_getitem', [('keys_in', 'κ', 'key')], 'ρ × φ', tparams=ODT,
+      env=ODENV, state_type=ODSTATE, state=OD_STATE, drop_assign=['mvs'], locals=OD_LOCALS,
+      externals={'do_codegen(self.codegen, *mvs)': ('(← Py.odCodegen env keys_in)', 'tuple'), 'self.algebra.wrapper': ('env.wrapper', 'opt:fun')}),
+    T('kingdon/operator_dict.py', 'UnaryOperatorDict.__getitem__', 'unaryoperatordict_getitem', [('keys_in', 'κ', 'key')], 'ρ × φ', tparams=ODT,
+      env=ODENV, state_type=ODSTATE, state=OD_STATE, drop_assign=['mv'], locals=OD_LOCALS,
+      externals={'do_codegen(self.codegen, mv)': ('(← Py.odCodegen env keys_in)', 'tuple'), 'self.algebra.wrapper': ('env.wrapper', 'opt:fun')}),
+    T('kingdon/operator_dict.py', 'Registry.__getitem__', 'registry_getitem', [('keys_in', 'κ', 'key')], 'ρ × φ', tparams=ODT,
+      env=ODENV, state_type=ODSTATE, state=OD_STATE, drop_assign=['tapes'], locals=OD_LOCALS,
+      externals={'do_compile(self.codegen, *tapes)': ('(← Py.odCodegen env keys_in)', 'tuple'), 'self.algebra.wrapper': ('env.wrapper', 'opt:fun')}),
+    T('kingdon/operator_dict.py', 'UnaryOperatorDict.__call__', 'unaryoperatordict_call', [('mv', 'Py.ODArg κ ω', 'arg')], 'ρ × ω', tparams=ODT + ' [Inhabited ω]',
+      env=ODENV, state_type=ODSTATE, state=OD_STATE, locals={**OD_LOCALS, 'values_out': ('ω', 'vals')},
+      externals={'self[mv.keys()]': ('(← unaryoperatordict_getitem env mv.keys)', 'tuple'), 'mv.issymbolic': ('mv.issymbolic', 'bool'),
+                 'mv.values()': ('mv.values', 'vals'), 'mv.algebra.wrapper': ('env.wrapper', 'opt:fun'),
+                 'self.algebra.simp_func': ('env.simp_func', 'bool'), 'self.filter(keys_out, values_out)': ('(env.filter keys_out values_out)', 'tuple'),
+                 'MultiVector.fromkeysvalues(self.algebra, keys=keys_out, values=values_out)': ('(keys_out, values_out)', 'tuple')}),
 ]
 BY_PY = {t.qual.split('.')[-1]: t for t in TARGETS}
 
@@ -234,6 +260,16 @@ class Tr:
 
     def E(self, node):
         """returns (lean code, kind)"""
+        if self.t.externals or self.t.state:
+            try:
+                text = ast.unparse(node)
+            except Exception:
+                text = None
+            if text in self.t.externals:
+                return self.t.externals[text]
+            if text in self.t.state:
+                fld, kind = self.t.state[text]
+                return f'(← get).{fld}', kind
         if isinstance(node, ast.Constant):
             v = node.value
             if isinstance(v, bool):
@@ -325,7 +361,7 @@ class Tr:
                 sym = {'Lt': '<', 'Gt': '>', 'LtE': '≤', 'GtE': '≥'}[op]
                 return f'(decide ({a} {sym} {b}))', 'bool'
             if op in ('In', 'NotIn'):
-                if kb in ('dict', 'mv'):
+                if kb in ('dict', 'mv') or (kb or '').startswith('dict:'):
                     c = f'(Py.dictHas {b} {a})'
                 elif kb in ('list', 'str'):
                     c = f'({b}.contains {a})'
@@ -333,6 +369,18 @@ class Tr:
                     raise Unsupported(f'`in` on kind {kb}')
                 return (c if op == 'In' else f'(!{c})'), 'bool'
             raise Unsupported(f'comparison {op}')
+        if isinstance(node, ast.IfExp) and self.t.externals and ast.unparse(node.test) in self.t.externals \
+                and (self.t.externals[ast.unparse(node.test)][1] or '').startswith('opt:'):
+            # `X(args) if X else default` with X an optional function: a match on X
+            key = ast.unparse(node.test)
+            code, kind = self.t.externals[key]
+            self.t.externals[key] = ('w__', kind[4:])
+            try:
+                a, ka = self.sub_do(node.body)
+            finally:
+                self.t.externals[key] = (code, kind)
+            b, kb = self.sub_do(node.orelse)
+            return f'(match {code} with | some w__ => {a} | none => {b})', ka or kb
         if isinstance(node, ast.IfExp):
             t = self.truth(node.test)
             a, ka = self.sub_do(node.body)
@@ -371,6 +419,10 @@ class Tr:
                 if attr == 'pss' and self.t.uses_ops:
                     return 'ops.pss', 'mv'
                 raise Unsupported(f'algebra attribute {attr}')
+            if node.attr == '__name__' and self.t.env:
+                v, kv = self.E(node.value)
+                if kv == 'funcobj':
+                    return f'(env.name {v})', 'name'
             if node.attr == 'e' and isinstance(node.value, ast.Attribute) and node.value.attr == 'blades' and self.is_alg(node.value.value) and self.t.uses_ops:
                 return 'ops.one', 'mv'
             if node.attr == 'e' and self.t.uses_ops:
@@ -391,8 +443,8 @@ class Tr:
             i, ki = self.E(node.slice)
             if kv == 'signs':
                 return f'(alg.signs {i})', 'int'
-            if kv in ('dict', 'mv'):
-                return f'(← Py.dictGet {v} {i})', ('coef' if kv == 'mv' else None)
+            if kv in ('dict', 'mv') or (kv or '').startswith('dict:'):
+                return f'(← Py.dictGet {v} {i})', ('coef' if kv == 'mv' else kv[5:] if kv.startswith('dict:') else None)
             if kv in ('list', 'str'):
                 return f'(← Py.getItem {v} {i})', ('int' if v == 'alg.signature' else None)
             raise Unsupported(f'subscript on kind {kv}')
@@ -467,6 +519,10 @@ class Tr:
         f = node.func
         args = node.args
         kw = {k.arg: k.value for k in node.keywords}
+        if self.t.externals:
+            ft = ast.unparse(f)
+            if ft in self.t.externals and self.t.externals[ft][1] == 'fun' and not kw:
+                return '(' + self.t.externals[ft][0] + ' ' + ' '.join(self.E(a)[0] for a in args) + ')', 'funcobj'
         if isinstance(f, ast.Name):
             n = f.id
             if n == 'list' and len(args) == 1:
@@ -493,6 +549,8 @@ class Tr:
                 return self.call_target(BY_PY[n], args, kw)
             if self.kinds.get(n) == 'fun':
                 return '(' + n + ' ' + ' '.join(self.E(a)[0] for a in args) + ')', 'int'
+            if self.kinds.get(n) == 'funcobj' and self.t.env and not kw:
+                return f'(← env.apply {n} ' + ' '.join(self.E(a)[0] for a in args) + ')', None
             raise Unsupported(f'call of {n}')
         if isinstance(f, ast.Attribute):
             # bin(k).count('1')
@@ -522,6 +580,10 @@ class Tr:
                 self.pre.append(f'{v} := {t}.2')
                 return f'{t}.1', None
             raise Unsupported(f'method {f.attr} on kind {kv}')
+        if self.t.env:
+            fv, kf = self.E(f)
+            if kf == 'funcobj' and not kw:
+                return f'(← env.apply {fv} ' + ' '.join(self.E(a)[0] for a in args) + ')', None
         raise Unsupported('call form')
 
     def call_target(self, tgt, args, kw):
@@ -614,6 +676,13 @@ class Tr:
             if len(st.targets) != 1:
                 raise Unsupported('multiple assignment targets')
             tg = st.targets[0]
+            if isinstance(tg, ast.Name) and tg.id in self.t.drop_assign:
+                return []
+            if isinstance(tg, ast.Subscript) and self.t.state and ast.unparse(tg.value) in self.t.state:
+                fld, _ = self.t.state[ast.unparse(tg.value)]
+                k_, _ = self.E(tg.slice)
+                v_, _ = self.E(st.value)
+                return self.flush(ind) + [f'{ind}modify fun s => {{ s with {fld} := Py.dictSet s.{fld} {k_} {v_} }}']
             if isinstance(tg, ast.Name):
                 # `p = p or <default>` for an optional parameter p: from here on p is the plain value
                 if (self.kinds.get(tg.id) or '').startswith('opt:') and isinstance(st.value, ast.BoolOp) and isinstance(st.value.op, ast.Or) \
@@ -633,11 +702,20 @@ class Tr:
             if isinstance(tg, (ast.Tuple, ast.List)):
                 c, k = self.E(st.value)
                 names = self._target_names(tg)
+                if names and all(n in self.declared for n in names):
+                    if all(n in self.mutable for n in names):
+                        return self.flush(ind) + [f'{ind}{self.pat(tg)} := {c}']
+                    raise Unsupported('tuple re-assignment of an immutable name')
                 if any(n in self.declared for n in names):
                     raise Unsupported('tuple re-assignment')
                 for n in names:
                     self.declared.add(n)
                 mut = 'mut ' if any(n in self.mutable for n in names) else ''
+                if self.t.env and isinstance(st.value, ast.Call) and ast.unparse(st.value) in self.t.externals:
+                    # result of an external call: kinds from the TARGETS table
+                    for n in names:
+                        if n in self.t.locals:
+                            self.kinds[n] = self.t.locals[n][1]
                 return self.flush(ind) + [f'{ind}let {mut}{self.pat(tg)} := {c}']
             if isinstance(tg, ast.Subscript) and isinstance(tg.value, ast.Name) and self.kinds.get(tg.value.id) in ('dict', 'mv'):
                 d = tg.value.id
@@ -740,9 +818,14 @@ class Tr:
             ps.append('(ops : Ops α)')
         ps += [f'({p} : {ty})' for p, ty, _ in t.params]
         names = [a.arg for a in self.fn.args.args]
+        if t.env and names[:1] == ['self']:
+            names = names[1:]
         if [n_ for n_ in names if n_ not in t.consts] != [p for p, _, _ in t.params]:
             raise Unsupported(f'signature changed: {names}')
-        head = f'def {t.lean} {t.tparams} {" ".join(ps)} : Py.M ({t.ret}) := do'
+        if t.env:
+            ps.insert(0, f'(env : {t.env})')
+        monad = f'ExceptT String (StateM ({t.state_type}))' if t.state_type else 'Py.M'
+        head = f'def {t.lean} {t.tparams} {" ".join(ps)} : {monad} ({t.ret}) := do'
         lines = [head]
         for p, _, _ in t.params:
             if p in self.mutable and not (self.kinds.get(p) or '').startswith('opt:'):
@@ -756,8 +839,10 @@ class Tr:
                     top_assigned.update(self._target_names(tg))
             elif isinstance(st, ast.If):
                 inner = {n for sub in ast.walk(st) if isinstance(sub, ast.Assign) for tg in sub.targets for n in self._target_names(tg)}
+                later = self.fn.body[self.fn.body.index(st) + 1:]
+                read_later = {nd.id for l in later for nd in ast.walk(l) if isinstance(nd, ast.Name) and isinstance(nd.ctx, ast.Load)}
                 for n in sorted(inner):
-                    if n in t.locals and n not in top_assigned and n not in self.declared:
+                    if n in t.locals and n in read_later and n not in top_assigned and n not in self.declared:
                         lines.append(f'  let mut {n} : {t.locals[n][0]} := default')
                         self.declared.add(n)
                         self.mutable.add(n)
